@@ -33,6 +33,7 @@ structure DS where
   seen : List (Nat × Nat) := []
   next : Nat := 0
   clones : List (Nat × Nat) := []   -- marker address of a cloned Frame object ↦ number by first visit
+  helpers : List (Nat × Nat) := []  -- marker address of an Infos helper ↦ number by first visit
 
 /-- rendering in a dump: cloned Frame objects are numbered by first visit (identity matters, not the address) -/
 def dumpFr (st : DS) (f : Fr) : String × DS :=
@@ -68,6 +69,14 @@ partial def dumpRef (h : Heap) (st : DS) (r : Ref) : String × DS :=
   | .none => ("~", st)
   | .form f => (s!"f:{f}", st)
   | .frame f => let (fs, st) := dumpFr st f; (s!"F:{fs}", st)
+  | .infos o g =>
+    -- the helper by identity (marker cells numbered by first visit, in their own series) and the object it is bound to
+    let (k, st) : Nat × DS :=
+      match st.helpers.lookup g with
+      | some k => (k, st)
+      | none => (st.helpers.length + 1, { st with helpers := (g, st.helpers.length + 1) :: st.helpers })
+    let (so, st) := dumpRef h st (.addr o)
+    (s!"I{k}@{so}", st)
   | .addr a =>
     match st.seen.lookup a with
     | some id => (s!"#{id}", st)
@@ -216,6 +225,7 @@ def step (st : St) (op : List String) : Option (St × String) :=
       pure (newRes { st with h := h } (ctor h a (some p)))
     else pure (newRes st (ctor st.h a none))
   | ["readman", i] => do let a ← var? st i; pure (unitRes st (readMan st.h a))
+  | ["readinfos", i] => do let a ← var? st i; pure (unitRes st (readInfos st.h a))
   | ["lappend", i, key, x] => do let a ← var? st i; let x ← x.toNat?; pure (unitRes st (metaAppend st.h a key x))
   | ["dset", i, key, x] => do let a ← var? st i; let x ← x.toNat?; pure (unitRes st (metaSetItem st.h a key x))
   | ["nappend", i, x] => do let a ← var? st i; let x ← x.toNat?; pure (unitRes st (nestedAppend st.h a x))
